@@ -140,7 +140,7 @@ def attempt(ctx, pgpy, blob, secret, allowed, what, d, extra=None, counter=None)
         got = bytes(dec._message._contents) if dec.type == 'literal' else None
     except Exception:
         got = None
-    if dec is em and not em.is_encrypted and any('not encrypted' in str(w.message) for w in wlist) and got is not None and got not in allowed \
+    if dec is em and not em.is_encrypted and any('not encrypted' in str(w.message) for w in wlist) and (got is None or got not in allowed) \
             and _still_has_encrypted_packet(blob):
         # the input still holds an encrypted data packet, yet PGPy calls it "not encrypted" and hands back a plaintext packet that
         # travelled beside it: the encrypted part was dropped silently
